@@ -9,8 +9,9 @@ Open Scope list_scope.
 
 Record case14 := mk14 { c_sch : schema; c_isch : schema; c_queries : list (gdoc * nat) }.
 
+(** The verdict only (0 accepted, 1 client error, 99 crash), never the wording of the error. *)
 Definition verdict_code {A} (r : res A) : nat :=
-  match r with ROk _ => 0 | RErr e => code_of e | RCrash _ => 99 end.
+  match r with ROk _ => 0 | RErr _ => 1 | RCrash _ => 99 end.
 
 (** Component codes: 1 introspection JSON differs from [advertised] of the walked schema; 2 a scalar
     outside the scalar table; 3 walked schema not closed; 4 PrepareQuery's verdict differs from
